@@ -60,6 +60,11 @@ CHECKS = {
     text="TLC shows TamperSafe for an authenticated cipher and for the block cipher abstraction, and produces the gains for the stream abstraction. Every model case (3024) is applied as a byte-level operation to a real issued key under license v1 (XTEA), v2 (XSalsa20) and v3 (salted Salsa20), plus seeded single-character substitutions and multi-byte xor masks; a modified key must grant nothing the original did not (30 probes). Gains under v2/v3 that the stream model predicts are the known finding stream_malleable; anything else (any gain under v1, any unpredicted gain) is a violation.",
     note="Bounded attacker: modifications of one issued key; no cryptanalysis; 2^-32 signature/target collisions under XTEA excluded.",
     ref="4.2, 5/C12"),
+ "C06": dict(
+    level="model_checking", technique="TLA+ spec History.tla: the iterator loop of SSD.lookup (QueryImpl) vs the property's description (QuerySpec) model-checked equal by TLC over all stores x queries; TLC-simulated store sequences replayed on the real SSD and InMemory providers; query results validated by TLC (History_Trace)",
+    text="TLC checks exhaustively (stores of up to 3 (quick) / 4 (thorough) messages out of 14 kinds, every query of the grid incl. continuation from every id) that the code-shaped scan returns exactly the most recent `limit` stored, live, same-contract, prefix-matching, in-window messages that fit the reply cap. Simulated store sequences (two contracts with constructed 32-bit prefix collisions, nested channels, same-second bursts, an expired message, near-cap payloads) are executed on the real badger-backed providers and every query result (the grid, plus continuation from every returned id) is validated by TLC against QuerySpec: same set, each once, non-decreasing time, nothing foreign.",
+    note="Expiry uses timestamps already in the past; order inside one second free; first filter level literal. The emitter/history/ request path is not driven here (C07 covers replay on subscribe).",
+    ref="4.4, 5/C06"),
 }
 
 NOT_YET = "check not built yet in this session (planned, see DESIGN.md section 5); not claimed until its machinery exists"
